@@ -271,9 +271,10 @@ func (s *Service) refreshAttesterDutiesForEpoch(ctx context.Context, epoch phase
 	}
 
 	// Reschedule attestations.
-	// Only reschedule current slot if its job was cancelled.
-	curentSlotJobCancelled := cancelledJobs[s.chainTimeService.CurrentSlot()]
-	go s.scheduleAttestations(ctx, epoch, validatorIndices, !curentSlotJobCancelled)
+	// Only reschedule the slot in progress if its job was cancelled.  The slot in question is the one in
+	// progress once the duties have been obtained, which can be the slot after the one in which the jobs
+	// were cancelled.
+	go s.scheduleAttestationsWithFilter(ctx, epoch, validatorIndices, func(slot phase0.Slot) bool { return !cancelledJobs[slot] })
 
 	// Update beacon committee subscriptions for the next epoch.
 	go s.subscribeToBeaconCommittees(ctx, epoch, accounts)
